@@ -1076,3 +1076,6 @@ def run(rep, repo, tier):
     rep.floor('R-HEAP-MALLOC', 8)
     rep.floor('R-HEAP-FREE', 8)
     rep.floor('R-HEAP-REALLOC', 12)
+    import c10_content
+    c10_content.run_ext(rep, repo, tier)
+
